@@ -247,5 +247,5 @@ func engineHandle(c map[string]J) map[string]J {
 			return res
 		}
 	}
-	return map[string]J{"status": "ok", "events": len(got)}
+	return map[string]J{"status": "ok", "events": len(got), "input": input}
 }
